@@ -68,9 +68,13 @@ def site_obligations(prog: Program, res: Result, rule: str, need_bare: bool) -> 
     for fn in P.consumers(prog):
         stats["consumers"] += 1
         pa = PathAnalysis(prog, fn, term_hook=P.name_hook)
+        unused_import_rule = any((prog.resolve_call(c.func, fn.mod, fn) or (None, None))[1] is prog.funcs.get(("fixes", "_get_unused_imports")) for c in prog.calls_in(fn))
         for s in P.find_sites(prog, fn):
             text = short(s.node, 90)
             stats["sites"] += 1
+            if unused_import_rule:
+                res.ok(rule, fn.loc(s.node), fn.fq, text, "an import statement chosen by NAME sets, not by a node with a .name: the preserved names are taken out of the set (R8.6)", trivial=True)
+                continue
             if s.kind == "insert":
                 res.ok(rule, fn.loc(s.node), fn.fq, text, "pure insertion: no definition is removed or renamed", trivial=True)
                 continue
@@ -193,9 +197,55 @@ def check(prog: Program, tier: str) -> Result:
                                   "the preserve set must reflect the preserved files as they are NOW: a memo keyed by the path hands a later run the names of an earlier version of the file")
     res.ok("R8.5", "pyrefact/main.py", "main", f"memoised functions between the preserved files and `preserve` # {len(anchors)} producer function(s) followed",
            f"{n_memo} memoised function(s) reachable, each judged above", trivial=bool(n_memo))
-    res.floors.update({"R8.1": 10, "R8.2": 8, "R8.3": 3, "R8.4": 1})
+    _r8_6(prog, res)
+    res.floors.update({"R8.1": 10, "R8.2": 8, "R8.3": 3, "R8.4": 1, "R8.6": 1})
     res.analysed.update(stats)
     return res
+
+
+def _r8_6(prog: Program, res: Result) -> None:
+    """An import BINDS a name in the module too: `from lib import join` in a preserved file works because lib imports join,
+    used there or not (re-exports, optional-import fallbacks).  A rule on the formatting path that deletes import statements
+    because their names are 'unused' in this module must take `preserve` and take the preserved names out of the unused
+    ones.  Instance: every rule generator reachable from format_code that computes unused imports (calls the unused-import
+    analysis) and yields deletions."""
+    from ..defuse import bindings
+    analysis = prog.funcs.get(("fixes", "_get_unused_imports"))
+    if analysis is None:
+        raise AnalysisError("anchor fixes._get_unused_imports not found")
+    n = 0
+    for fn in prog.funcs.values():
+        if not fn.is_fix:
+            continue
+        calls = [c for c in prog.calls_in(fn) if (prog.resolve_call(c.func, fn.mod, fn) or (None, None))[1] is analysis]
+        deletes = [y for y in walk_own(fn.node) if isinstance(y, ast.Yield) and isinstance(y.value, ast.Tuple) and len(y.value.elts) >= 2
+                   and isinstance(y.value.elts[1], ast.Constant) and y.value.elts[1].value is None]
+        if not calls or not deletes:
+            continue
+        n += 1
+        has_param = "preserve" in fn.all_params
+        # the unused set is reduced by preserve: the statement that binds the result of the analysis, or a later one on the same name
+        reduced = False
+        for c in calls:
+            st = c
+            while st is not None and not isinstance(st, ast.stmt):
+                st = parent(st)
+            texts = [norm(st)]
+            if isinstance(st, ast.Assign) and isinstance(st.targets[0], ast.Name):
+                nm = st.targets[0].id
+                for x in walk_own(fn.node):
+                    if isinstance(x, (ast.Assign, ast.AugAssign)) and nm in {t.id for t in ast.walk(x) if isinstance(t, ast.Name)} and x is not st:
+                        texts.append(norm(x))
+                    if isinstance(x, ast.comprehension) and nm in norm(x.iter):
+                        texts.append(" ".join(norm(i) for i in x.ifs))
+            reduced = reduced or any(("preserve" in t and ("-" in t or "difference" in t or "not in" in t)) for t in texts)
+        ok = has_param and reduced
+        res.decide(ok, "R8.6", fn.loc(), fn.fq, f"{fn.name} # deletes the imports the module does not use",
+                   "takes `preserve` and keeps the imports whose names are preserved" if ok else
+                   ("has no `preserve` parameter" if not has_param else "does not take the preserved names out of the unused imports")
+                   + ": a name another file imports FROM this module (`from lib import join`, `lib.json`) is deleted here because this module does not use it itself")
+    if n == 0:
+        raise AnalysisError("R8.6: no rule deleting unused imports found")
 
 
 def _magic_methods(prog: Program, res: Result) -> None:
@@ -329,6 +379,8 @@ def _producer(prog: Program, res: Result) -> None:
 from ..selftest import Variant  # noqa: E402
 
 VARIANTS = [
+    Variant("unused-imports-ignore-preserve", "FIRE", "fixes", "    unused_imports = set(_get_unused_imports(root)) - set(preserve)\n", "    unused_imports = set(_get_unused_imports(root))\n", "R8.6"),
+    Variant("unused-imports-called-without-preserve", "FIRE", "main", "            source = fixes.remove_unused_imports(source, preserve=preserve)", "            source = fixes.remove_unused_imports(source)", "R8.1"),
     Variant("from-import-aliases-not-recorded", "FIRE", "main",
             "    for node in core.walk(ast_root, ast.ImportFrom):\n        # What is imported from another file must keep its name over there,\n        # whatever it is called here and whether or not it is used here.\n        names.extend(alias.name for alias in node.names)\n", "", "R8.3"),
     Variant("from-import-aliases-recorded-by-bound-name", "FIRE", "main",
